@@ -49,6 +49,7 @@ def cases(O):
                 code = wrap % ((stmt, op) if k % 2 else (op, stmt))
                 cases.append({"id": "c06pos-%d-%d-%d" % (pi, ni, k), "config": vlib.default_config(localVarPrefix="t"),
                               "calls": [{"code": code, "file": "pos.js"}], "opts": {}})
+    cases += F.reserved_header_cases()
     return cases
 
 
